@@ -24,4 +24,14 @@ for model in range(8):
 thorough.append(job("c03.batches", secs=600, jobs=16, model=0, nq=2, d=2, nt=3, symtrain=1, B=8))
 thorough.append(job("c03.batches", secs=600, jobs=16, model=3, nq=2, d=2, nt=4, symtrain=1, B=8))
 
+def _kani(tier, seed):
+    import os, sys
+    hk = os.path.join(os.path.dirname(os.path.dirname(os.path.abspath(__file__))), "hk")
+    if hk not in sys.path:
+        sys.path.insert(0, hk)
+    import run_kani
+    return run_kani.run("C03", tier, seed)
+
+
 REG = {"C03": {"quick": quick, "thorough": thorough}}
+EXTRA = {"C03": _kani}
